@@ -2,7 +2,7 @@
 # usage: confirm.sh <prop> <k>   — confirms a sub-agent's change in its scratch worktree /tmp/wt-<prop>
 # (existing tests pass with the patch; demo fails with it and passes without it). Uses go1.26.8.
 prop=$1; k=$2
-wt=/tmp/wt-$prop; d=$wt/out/m$k
+wt=${WT_PREFIX:-/tmp/wt}-$prop; d=$wt/out/m$k
 export GOFLAGS=-mod=mod GOPROXY=off GOSUMDB=off GOTOOLCHAIN=local
 GO=go1.26.8
 case $prop in
